@@ -56,7 +56,10 @@ JudgeTail(c, o) ==
   /\ Clause("rt1_rest", o.rest)
   /\ Clause("fresh", ~o.shared)
   /\ Clause("rt2_write", o.w2 # "raise")
-  /\ o.w2 = "ok" => Clause("rt2_xml", o.x12 # "diff")
+  \* not demanded for an explicit None on a member whose absent XML part reads back as the declared default object or
+  \* as an empty list: the library documents None as "omit the element" there, and the read-back value (default / [])
+  \* legitimately writes the element (acceptance decision, DESIGN 11.2)
+  /\ (o.w2 = "ok" /\ ~(c.vc = "absent" /\ ExpVal(c).t # "none")) => Clause("rt2_xml", o.x12 # "diff")
 
 JudgeProp(c, o) ==
   /\ Clause("write_ok", o.w = "ok")
